@@ -11,5 +11,5 @@ CONSTANTS
   Spurious = FALSE
   Interrupts = FALSE
   Bug = "perwait"
-INVARIANTS ViewIsFunctionOfMoved StreamExact ReadWriteComplete RecvSendBounds NoHangPastTimeout WaitsOnlyForData
+INVARIANTS NoHangPastTimeout
 CHECK_DEADLOCK FALSE
